@@ -275,6 +275,22 @@ def check(P, rep):
                     kinds = sorted(variant_name(a) or '?' for a in al)
                     rep.check(kinds == ['None', 'Some'], 'C10.R8', 'decode:%s.%s:empty-is-none' % (vname, ob), 'optional bytes decode to None or Some', entry_id(g), str(kinds))
         if level == 'msg':
+            # direction of the empty test: a Some(bytes) built from an optional sol field lies behind "field is NOT empty"
+            nsome = 0
+            for ctx in g.ctxs:
+                for d in ctx.body['defs']:
+                    if d['kind'] == 'assign' and d['rv']['r'] == 'agg' and d['rv'].get('adt') == 'core::option::Option' and d['rv'].get('variant') == 'Some' \
+                            and (ctx.id, d['bb']) in g.node_states:
+                        t_ = norm(g.term_def(ctx, d, 0))
+                        fld = find(t_, lambda s_: s_[0] == 'field' and s_[1] in ('data', 'minter') and decode_call(s_[2]) is not None)
+                        if fld is None:
+                            continue
+                        nsome += 1
+                        ne = guard_sel(g, lambda c_: c_[0] == 'false' and c_[1][0] == 'call' and c_[1][1].endswith('[u8]>::is_empty') and same(core(c_[1][2][0]), fld))
+                        ok, _, w = mg(g, [(ctx.id, d['bb'])], (), edges(ne)) if ne else (False, None, None)
+                        rep.check(ok, 'C10.R8', 'decode:%s:some-only-if-nonempty' % fld[1], 'Some(bytes) is built only behind "the sol field is not empty" (empty decodes to None)',
+                                  site(g, ctx, d['bb']), None, w)
+            rep.floor('optional-bytes Some constructions in Message::abi_decode', nsome, 2)
             em = guard_sel(g, lambda c_: c_[0] in ('true', 'false') and c_[1][0] == 'call' and c_[1][1].endswith('[u8]>::is_empty'))
             rep.floor('empty-bytes guards in Message::abi_decode', len(em), 2)
     # R3 bijection
